@@ -50,6 +50,20 @@ func genC18Query(g kit.G, c *kit.Corpus) kit.QSpec {
 	typeRepo := func() kit.QSpec {
 		return kit.QSpec{Op: "type", Num: float64(query.TypeRepo), Kids: []kit.QSpec{text()}}
 	}
+	if g.Bool(12, "allrepos-one-branch") {
+		// a single-entry branch / repository list naming every repository: the
+		// sharded searcher replaces it by a plain branch filter
+		var ids []uint32
+		for i := range c.Repos {
+			ids = append(ids, c.Repos[i].ID)
+		}
+		r := &c.Repos[g.U(len(c.Repos), "abrepo")]
+		br := kit.QSpec{Op: "branchesrepos", BR: []kit.BRSpec{{Branch: kit.Pick(g, r.Branches, "abbranch").Name, IDs: ids}}}
+		if g.Bool(30, "abconst") {
+			return kit.QSpec{Op: "and", Kids: []kit.QSpec{br, {Op: "const", Val: true}}}
+		}
+		return kit.QSpec{Op: "and", Kids: []kit.QSpec{br, text()}}
+	}
 	switch g.Int(0, 9, "shape") {
 	case 0, 1, 2, 3:
 		// (and repoatom+ text)
@@ -418,6 +432,32 @@ func TestVerif_C18(t *testing.T) {
 		c := c18Case{Corpus: kit.GenCorpus(g, o), Chunk: g.Bool(50, "chunk")}
 		if len(c.Corpus.Repos) < 2 {
 			c.Corpus.Repos = append(c.Corpus.Repos, kit.GenRepo(g, o, 1, "github.com/a/bar"))
+		}
+		if g.Bool(40, "sharedbranches") {
+			// every repository has the branches "dev" and "dev-old" (one name
+			// contains the other) and documents that are on only one of them
+			for i := range c.Corpus.Repos {
+				r := &c.Corpus.Repos[i]
+				for _, b := range []string{"dev", "dev-old"} {
+					has := false
+					for _, rb := range r.Branches {
+						has = has || rb.Name == b
+					}
+					if !has {
+						r.Branches = append(r.Branches, kit.Branch{Name: b, Version: "v-" + b})
+					}
+				}
+				for j := range r.Docs {
+					switch g.U(4, "docbranch") {
+					case 0:
+						r.Docs[j].Branches = []string{"dev"}
+					case 1:
+						r.Docs[j].Branches = []string{"dev-old"}
+					case 2:
+						r.Docs[j].Branches = []string{"dev", "dev-old"}
+					}
+				}
+			}
 		}
 		ncomp := 0
 		for range c.Corpus.Repos {
